@@ -58,6 +58,7 @@ type c03Ev struct {
 	end  time.Duration // fire with end = now+end; <0: resolve (end = now)
 	adv  time.Duration
 	gc   bool
+	timeout bool
 }
 
 func c03Alphabet(nsrc int) []c03Ev {
@@ -69,6 +70,11 @@ func c03Alphabet(nsrc int) []c03Ev {
 			c03Ev{name: "fire " + n + " end+10m", src: i, end: 10 * time.Minute},
 			c03Ev{name: "resolve " + n, src: i, end: -1},
 		)
+		if i < 2 {
+			// posted without an end: the API gives it now+resolve_timeout and marks it a timeout end, which a later
+			// explicit end may SHORTEN (the only way an alert's end moves backwards)
+			evs = append(evs, c03Ev{name: "fire " + n + " without an end (timeout end +10m)", src: i, end: 10 * time.Minute, timeout: true})
+		}
 	}
 	evs = append(evs,
 		c03Ev{name: "source-cache gc", src: -1, gc: true},
@@ -149,6 +155,7 @@ func c03Run(t *testing.T, evs []c03Ev, h []int, wantKey bool) (res seqx.Result) 
 					}
 				} else {
 					a.EndsAt = now.Add(ev.end)
+					a.Timeout = ev.timeout
 				}
 				if err := prov.Put(ctx, a); err != nil {
 					panic(err)
